@@ -381,7 +381,7 @@ def make_upgrade(ver):
         kw = dict(version=v, id="n1", note_name=step, modifier=alter, octave=octave, onset=onset, offset=onset + dur,
                   velocity=vel)
         if v >= Version(0, 3, 0):
-            kw["adj_offset"] = onset + dur
+            kw["adj_offset"] = onset + dur + 7  # pedal-adjusted offset differs from the key release
         old_note = must_not_raise(V0.MatchNote, **kw, _what="v0 MatchNote()")
         old = must_not_raise(V0.MatchInsertionNote, version=v, note=old_note, _what="v0 MatchInsertionNote()")
         up = must_not_raise(V1.to_v1, old, _what="to_v1(insertion)")
